@@ -281,14 +281,18 @@ def run(chk, model_ok=True):
                 return out
             ares = e2e.run_coro(all_async(), watchdog=10 + len(cases) * 1.0)
             if ares is None:
-                ares = [(("exc", "Hang", True), 99.0)] * len([c for c in cases if c["mode"] == "async"])
+                ares = [(("exc", "Hang", True), 99.0, [])] * len([c for c in cases if c["mode"] == "async"])
             for c, f in futs:
-                c["result"], c["elapsed"] = f.result()
-        for c, (r, el) in zip([c for c in cases if c["mode"] == "async"], ares):
-            c["result"], c["elapsed"] = r, el
+                c["result"], c["elapsed"], c["actual"] = f.result()
+        for c, (r, el, actual) in zip([c for c in cases if c["mode"] == "async"], ares):
+            c["result"], c["elapsed"], c["actual"] = r, el, actual
         for c in cases:
             n_cli += 1
             r = c["result"]
+            # (judged on the times the agent really sent at: a reply that left the agent too close to the deadline,
+            # because the machine is loaded, proves nothing)
+            if c["actual"] and c["actual"][-1] > c18.T_TICKS - 1.2:
+                continue
             if r[:2] != ("ok", 4242):
                 fail(f"{c['mode']} SnmpSession.get on {c['peer'].label}: non-matching datagrams at ticks {[t for t, k in c['sched'] if k == 's']} "
                      f"then the reply at tick {c['sched'][-1][0]} (timeout {c18.T_TICKS} ticks of {c18.TICK}s) gave {r!r:.80} "
